@@ -32,7 +32,7 @@ const (
 	statusWait   = 25 * time.Second // generous deadline for /status after a journalled request
 	settleMax    = 30 * time.Second // generous settle period for persistent-state oracles
 	maxRestarts  = 6
-	leakEveryOps = 100
+	leakEveryOps = 60 // fuzz requests between two leak checks (batches may end a little later)
 )
 
 // plan describes one child-process fixture.
@@ -98,6 +98,7 @@ type op struct {
 	gen      string // generator "family.variant"
 	desc     any    // journalled description (enough to re-create the request with the seed)
 	mustFail bool   // unambiguously malformed: success (2xx / OK) is a violation
+	class    string // optional coarser input class used in the malformed-accepted key (one root cause, one key)
 	abortOp  bool   // client aborts a transfer of a large blob: run the descriptor probe right after
 	setup    bool   // harness housekeeping (not counted as a fuzz case)
 	noRetry  bool   // do not re-run to confirm an aborted connection
@@ -151,6 +152,8 @@ type fixture struct {
 	finalSigs    map[string]int
 	lastOp       *op
 	keepJournal  bool
+	stallSeen    bool // the FetchBlob stall finding has been established on this fixture
+	deathSeen    bool // the death of the current child process has been reported
 }
 
 func runFixture(r *lib.Run, p plan, n int) {
@@ -185,6 +188,7 @@ func runFixture(r *lib.Run, p plan, n int) {
 		return
 	}
 	sched := newScheduler(fx)
+	lastLeak := 0
 	for fx.fuzzOps < n && !fx.dead {
 		inBatch := 0
 		for inBatch < batchSize && fx.fuzzOps < n && !fx.dead {
@@ -199,7 +203,8 @@ func runFixture(r *lib.Run, p plan, n int) {
 			}
 		}
 		fx.livenessCheck("batch")
-		if !fx.dead && !fx.child.Exited() && (fx.fuzzOps%leakEveryOps == 0 || fx.fuzzOps >= n) {
+		if !fx.dead && !fx.child.Exited() && fx.fuzzOps-lastLeak >= leakEveryOps && fx.fuzzOps < n {
+			lastLeak = fx.fuzzOps
 			fx.leakCheck("periodic")
 		}
 		if fx.child.Exited() && !fx.dead {
@@ -480,8 +485,12 @@ func (fx *fixture) judge(o *op, res result) {
 	}
 	// (3) malformed request answered with success.
 	if o.mustFail && res.success {
-		fx.violation("C14:malformed-accepted:"+o.ep+":"+o.gen, "an unambiguously malformed request was answered with success ("+res.status+")",
-			map[string]any{"status": res.status, "note": res.note, "request": o.desc})
+		cls := o.class
+		if cls == "" {
+			cls = o.gen
+		}
+		fx.violation("C14:malformed-accepted:"+o.ep+":"+cls, "an unambiguously malformed request was answered with success ("+res.status+")",
+			map[string]any{"status": res.status, "note": res.note, "generator": o.gen, "request": o.desc})
 	}
 	if o.after != nil && !fx.dead && !fx.child.Exited() {
 		o.after(fx, res)
